@@ -252,6 +252,14 @@ func parseLine(line string, document *Document, family *FamilyNode) (Node, int, 
 	// Tag (required).
 	tag := TagFromString(parts[3])
 
+	// The husband, wife and children can only be created inside of a family.
+	// A file that has one of these before the first family is not valid, but
+	// that has to be an error rather than a panic.
+	if family == nil &&
+		(tag.Is(TagHusband) || tag.Is(TagWife) || tag.Is(TagChild)) {
+		return nil, 0, fmt.Errorf("%s without a family: %s", tag, line)
+	}
+
 	// Value (optional).
 	value := parts[4]
 
